@@ -8,7 +8,7 @@ the panic of every leveled operation.  The numeric data path is *not* modelled h
 what is recorded of it is which core entry point is reached with which shape parameters, so that
 the entry assertions of `poulpy-core/src/operations/glwe.rs` and every unchecked `usize`
 subtraction can be evaluated (`tensorCheck`, `squareCheck`, `plainCheck`, `constCheck`, `usub`).  The model follows the tree *with*
-the repairs of docs/fixes/ applied (01–07).
+the repairs of docs/fixes/ applied (01–08).
 
 Rust → Lean
 * `CKKSMeta`, `effective_k`, `min_k`                      → `Meta`, `Meta.effK`, `Meta.minK`
@@ -187,14 +187,14 @@ def addCtAssign (_env : Env) (dst a : Ct) : Res Ct :=
   | none => .panic .usizeSub
   | some _ => .ok { dst with md := ⟨min dst.md.logDelta a.md.logDelta, min dst.md.logBudget a.md.logBudget⟩ }
 
-/-- `glwe_lsh(dst, a, offset [+…])`, `dst.md = a.meta()`, `log_budget = checked_sub(a.log_budget, offset + extra)`:
-the common head of every unary `_into` operation.  On error the metadata has **already** been
-overwritten with `a.meta()`. -/
+/-- `log_budget = checked_sub(a.log_budget, offset + extra)?`, `glwe_lsh(dst, a, offset [+…])`,
+`dst.md = a.meta()` with that budget: the common head of every unary `_into` operation.  The budget
+is checked before the destination is touched (docs/fixes/08). -/
 def shiftInto (env : Env) (dst a : Ct) (extra : Nat) : Res Ct :=
   let off := offsetUnary env dst a
   if off + extra ≤ a.md.logBudget then
     .ok { dst with md := ⟨a.md.logDelta, a.md.logBudget - (off + extra)⟩ }
-  else .err (.insufficient a.md.logBudget (off + extra)) { dst with md := a.md }
+  else .err (.insufficient a.md.logBudget (off + extra)) dst
 
 /-- `CKKSPlaintextZnxDefault::ckks_{add,sub}_pt_vec_znx_into_default` (radix check, alignment, rsh-add) -/
 def ptAlign (env : Env) (dst : Ct) (pt : Pt) : Res Ct :=
@@ -496,6 +496,164 @@ def decrypt (env : Env) (ct : Ct) (pt : Pt) : Res Ct :=
     | none => .panic .usizeSub
     | some _ => .ok ct
 
+/-! ## the shift amounts handed to the core (`glwe_lsh*`, `vec_znx_rsh_*`) — the data path of the linear operations -/
+
+/-- `ckks_{add,sub}_into_unsafe`: bits by which `a` resp. `b` are shifted left into `dst` -/
+def addShiftAB (env : Env) (dst a b : Ct) : Nat × Nat :=
+  let off := offsetBinary env dst a b
+  if off = 0 ∧ a.md.logBudget = b.md.logBudget then (0, 0)
+  else if a.md.logBudget ≤ b.md.logBudget then (off, b.md.logBudget - a.md.logBudget + off)
+  else (a.md.logBudget - b.md.logBudget + off, off)
+
+/-- `ckks_{add,sub}_assign_unsafe`: (shift applied to `dst` in place, shift applied to `a`) -/
+def assignShiftDA (dst a : Ct) : Nat × Nat :=
+  if dst.md.logBudget < a.md.logBudget then (0, a.md.logBudget - dst.md.logBudget)
+  else (dst.md.logBudget - a.md.logBudget, 0)
+
+/-- `glwe_lsh(dst, a, bits + offset)` of `ckks_mul_pow2_into` (`bits = 0`: neg, rotate, conjugate, add/sub of a plaintext) -/
+def unaryShift (env : Env) (dst a : Ct) (bits : Nat) : Nat := bits + offsetUnary env dst a
+
+/-- `glwe_lsh(dst, src, k + offset)` of `ckks_rescale_into` -/
+def rescaleIntoShift (env : Env) (dst : Ct) (k : Nat) (src : Ct) : Nat :=
+  k + ((src.md.logDelta + (src.md.logBudget - k)) - dst.maxK env)
+
+/-- `vec_znx_rsh_{add_into,sub}(offset)` of a ZNX plaintext: `ct.log_budget + pt.log_delta - pt.max_k` -/
+def ptShift (dst : Ct) (pt : Pt) : Nat := (dst.md.logBudget + pt.md.logDelta) - pt.maxK
+
+/-! ## composite operations (`leveled/delegates/composite.rs`) -/
+
+/-- `ensure_accumulation_fits`: `base2k < 64` and `n ≤ 2^(63 - base2k)` -/
+def accFits (env : Env) (n : Nat) : Bool := decide (env.base2k < 64) && decide (n ≤ 2 ^ (63 - env.base2k))
+
+/-- `ckks_add_many`: one input is an aligned copy, otherwise `add_into_unsafe` of the first two, then
+`add_assign_unsafe` of the others, one normalisation at the end -/
+def addMany (env : Env) (dst : Ct) (ins : List Ct) : Res Ct :=
+  match ins with
+  | [] => .err .other dst
+  | [a] => shiftInto env dst a 0
+  | a :: b :: rest =>
+    if !accFits env ins.length then .err .other dst
+    else (addCtInto env dst a b).bind (fun d => rest.foldl (fun r c => r.bind (fun d' => addCtAssign env d' c)) (.ok d))
+
+/-- `ceil_log2` -/
+def ceilLog2 (n : Nat) : Nat := if n ≤ 1 then 0 else Nat.log2 (n - 1) + 1
+
+/-- scratch ciphertext of `take_glwe` with torus precision `k` -/
+def tmpOfK (env : Env) (k : Nat) : Ct := ⟨⟨0, 0⟩, divCeil k env.base2k⟩
+
+def minEff (l : List Ct) : Nat := (l.map (fun c => c.md.effK)).foldl min (l.headD ⟨⟨0, 0⟩, 0⟩).md.effK
+
+/-- the product tree of `mul_many_rec` for three or more inputs `ins` of common `log_delta` `δ` -/
+def mulTree (env : Env) (rec : Ct → List Ct → Res Ct) (dst : Ct) (ins : List Ct) (δ : Nat) : Res Ct :=
+  let mid := ins.length / 2
+  let left := ins.take mid
+  let right := ins.drop mid
+  let lk := minEff left - ceilLog2 left.length * δ
+  let rk := minEff right - ceilLog2 right.length * δ
+  match rec (tmpOfK env lk) left with
+  | .panic p => .panic p
+  | .err e _ => .err e dst
+  | .ok l =>
+    match rec (tmpOfK env rk) right with
+    | .panic p => .panic p
+    | .err e _ => .err e dst
+    | .ok r => mulInto env dst l r
+
+/-- `mul_many_rec` (balanced product tree into scratch temporaries); `fuel` ≥ number of inputs.
+Every level first requires a common `log_delta` (`ensure!`). -/
+def mulManyRec (env : Env) : Nat → Ct → List Ct → Res Ct
+  | 0, dst, _ => .err .other dst
+  | fuel + 1, dst, ins =>
+    match ins with
+    | [] => .err .other dst
+    | [x] => shiftInto env dst x 0
+    | [x, y] => if x.md.logDelta = y.md.logDelta then mulInto env dst x y else .err .other dst
+    | a :: b :: c :: rest =>
+      if (a :: b :: c :: rest).all (fun z => z.md.logDelta == a.md.logDelta) then
+        mulTree env (mulManyRec env fuel) dst (a :: b :: c :: rest) a.md.logDelta
+      else .err .other dst
+
+/-- `ckks_mul_many` -/
+def mulMany (env : Env) (dst : Ct) (ins : List Ct) : Res Ct := mulManyRec env (ins.length + 1) dst ins
+
+/-- one iteration of `accumulate_unnormalized`: the product into a temporary with `dst`'s layout, then
+`ckks_add_assign_unsafe(dst, tmp)` -/
+def accStep (env : Env) (r : Res Ct) (t : Ct → Res Ct) : Res Ct :=
+  r.bind (fun d =>
+    match t (mulTmp d) with
+    | .ok tmp => addCtAssign env d tmp
+    | .err e _ => .err e d
+    | .panic p => .panic p)
+
+/-- `accumulate_unnormalized` over the pairs `1..n` -/
+def accumulate (env : Env) (dst : Ct) (terms : List (Ct → Res Ct)) : Res Ct :=
+  terms.foldl (accStep env) (.ok dst)
+
+/-- the common shape of `ckks_dot_product_pt_*`: first product into `dst`, the others accumulated -/
+def dotWith (env : Env) (dst : Ct) (n : Nat) (first : Ct → Res Ct) (others : List (Ct → Res Ct)) : Res Ct :=
+  if n = 0 then .err .other dst
+  else if !accFits env n then .err .other dst
+  else (first dst).bind (fun d => accumulate env d others)
+
+def minBudget (l : List Ct) : Nat := (l.map (fun c => c.md.logBudget)).foldl min (l.headD ⟨⟨0, 0⟩, 0⟩).md.logBudget
+
+/-- operand handed to the tensor product in the aligned path of `ckks_dot_product_ct`: the input itself
+when the whole side is aligned, otherwise its rescaled copy in a buffer of `target` bits -/
+def dotOperand (env : Env) (aligned : Bool) (target ld minB : Nat) (c : Ct) : Ct :=
+  if aligned then c else ⟨⟨ld, minB⟩, divCeil target env.base2k⟩
+
+/-- `ckks_dot_product_ct` -/
+def dotCt (env : Env) (dst : Ct) (as bs : List Ct) : Res Ct :=
+  if as.length = 0 then .err .other dst
+  else if as.length ≠ bs.length then .err .other dst
+  else if !accFits env as.length then .err .other dst
+  else
+    match as, bs with
+    | a0 :: ta, b0 :: _ =>
+      if ta.isEmpty then mulInto env dst a0 b0 else
+      let aMin := minBudget as
+      let bMin := minBudget bs
+      let aAligned := as.all (fun c => c.md.logBudget == aMin && c.md.logDelta == a0.md.logDelta)
+      let bAligned := bs.all (fun c => c.md.logBudget == bMin && c.md.logDelta == b0.md.logDelta)
+      let uniform := as.all (fun c => c.md.logDelta == a0.md.logDelta) && bs.all (fun c => c.md.logDelta == b0.md.logDelta)
+      if !uniform then
+        (mulInto env dst a0 b0).bind (fun d =>
+          accumulate env d (((as.zip bs).drop 1).map (fun (ab : Ct × Ct) => fun t => mulInto env t ab.1 ab.2)))
+      else
+        let aLd := a0.md.logDelta
+        let bLd := b0.md.logDelta
+        let aT := aMin + aLd
+        let bT := bMin + bLd
+        if max aLd bLd ≤ min aMin bMin then
+          let lhr0 := min aMin bMin - max aLd bLd
+          let rld := min aLd bLd
+          let ro := (lhr0 + rld) - dst.maxK env
+          if ro ≤ lhr0 then
+            let cnv := max aMin bMin + max aLd bLd + ro
+            let chk := (as.zip bs).findSome? (fun (ab : Ct × Ct) =>
+              tensorCheck env (dotOperand env aAligned aT aLd aMin ab.1) (dotOperand env bAligned bT bLd bMin ab.2) cnv)
+            finishMul dst ⟨lhr0 - ro, rld, cnv⟩ chk
+          else .err (.insufficient lhr0 ro) dst
+        else .err (.mulUnderflow aMin bMin aLd bLd) dst
+    | _, _ => .err .other dst
+
+def dotPtZnx (env : Env) (dst : Ct) (as : List Ct) (pt : Pt) : Res Ct :=
+  match as with
+  | [] => .err .other dst
+  | a0 :: rest => dotWith env dst as.length (fun d => mulPtZnxInto env d a0 pt) (rest.map (fun a => fun t => mulPtZnxInto env t a pt))
+
+def dotPtRnx (env : Env) (dst : Ct) (as : List Ct) (prec : Meta) : Res Ct :=
+  match as with
+  | [] => .err .other dst
+  | a0 :: rest => dotWith env dst as.length (fun d => mulPtRnxInto env d a0 prec) (rest.map (fun a => fun t => mulPtRnxInto env t a prec))
+
+def dotCstRnx (env : Env) (dst : Ct) (as : List Ct) (prec : Meta) (re im : Bool) : Res Ct :=
+  match as with
+  | [] => .err .other dst
+  | a0 :: rest =>
+    dotWith env dst as.length (fun d => mulCstRnx env d a0 prec re im false)
+      (rest.map (fun a => fun t => mulCstRnx env t a prec re im false))
+
 /-! ## programs -/
 
 abbrev Pool := List Ct
@@ -544,6 +702,12 @@ inductive Op where
   | compactCopy (d a : Nat)
   | setMeta (d : Nat) (m : Meta)
   | dec (a : Nat) (pt : Pt)
+  | addMany (d : Nat) (as : List Nat)
+  | mulMany (d : Nat) (as : List Nat)
+  | dotCt (d : Nat) (as bs : List Nat)
+  | dotPtZnx (d : Nat) (as : List Nat) (pt : Pt)
+  | dotPtRnx (d : Nat) (as : List Nat) (prec : Meta)
+  | dotCstRnx (d : Nat) (as : List Nat) (prec : Meta) (re im : Bool)
 deriving Repr, DecidableEq
 
 /-- write the result of an operation on slot `d` back into the pool -/
@@ -567,6 +731,26 @@ def op2 (pool : Pool) (d a : Nat) (f : Ct → Ct → Res Ct) : Res Pool :=
 def op3 (pool : Pool) (d a b : Nat) (f : Ct → Ct → Ct → Res Ct) : Res Pool :=
   match pool[d]?, pool[a]?, pool[b]? with
   | some cd, some ca, some cb => if d = a ∨ d = b then .err .badSlot pool else putRes pool d (f cd ca cb)
+  | _, _, _ => .err .badSlot pool
+
+/-- all source slots exist and none is the destination -/
+def getAll (pool : Pool) (d : Nat) : List Nat → Option (List Ct)
+  | [] => some []
+  | a :: as =>
+    if a = d then none
+    else
+      match pool[a]?, getAll pool d as with
+      | some c, some cs => some (c :: cs)
+      | _, _ => none
+
+def opN (pool : Pool) (d : Nat) (as : List Nat) (f : Ct → List Ct → Res Ct) : Res Pool :=
+  match pool[d]?, getAll pool d as with
+  | some cd, some cs => putRes pool d (f cd cs)
+  | _, _ => .err .badSlot pool
+
+def opNN (pool : Pool) (d : Nat) (as bs : List Nat) (f : Ct → List Ct → List Ct → Res Ct) : Res Pool :=
+  match pool[d]?, getAll pool d as, getAll pool d bs with
+  | some cd, some ca, some cb => putRes pool d (f cd ca cb)
   | _, _, _ => .err .badSlot pool
 
 /-- `ckks_align_assign(a, b)` (two distinct mutable ciphertexts) -/
@@ -629,6 +813,12 @@ def stepR (env : Env) (pool : Pool) : Op → Res Pool
   | .compactCopy d a => op2 pool d a (compactCopy env)
   | .setMeta d m => op1 pool d (fun cd => setMeta env cd m)
   | .dec a pt => op1 pool a (fun ca => decrypt env ca pt)
+  | .addMany d as => opN pool d as (addMany env)
+  | .mulMany d as => opN pool d as (mulMany env)
+  | .dotCt d as bs => opNN pool d as bs (dotCt env)
+  | .dotPtZnx d as pt => opN pool d as (fun cd cs => withPt env pt cd (dotPtZnx env cd cs pt))
+  | .dotPtRnx d as prec => opN pool d as (fun cd cs => dotPtRnx env cd cs prec)
+  | .dotCstRnx d as prec re im => opN pool d as (fun cd cs => dotCstRnx env cd cs prec re im)
 
 /-- the specification-level step (Basic's `Outcome`) -/
 def step (env : Env) (pool : Pool) (op : Op) : Outcome Pool := (stepR env pool op).toOutcome
@@ -641,5 +831,16 @@ def run (env : Env) : Pool → List Op → Res Pool
     match stepR env s op with
     | .ok s' => run env s' rest
     | r => r
+
+/-- the same program run by a caller that handles errors and goes on: an `Err` call is skipped and
+the state it leaves is kept (this is the loop `Drv.Ckks.runAll` / the harness execute, minus the
+printing); only a panic ends the run -/
+def runC (env : Env) : Pool → List Op → Res Pool
+  | s, [] => .ok s
+  | s, op :: rest =>
+    match stepR env s op with
+    | .ok s' => runC env s' rest
+    | .err _ s' => runC env s' rest
+    | .panic p => .panic p
 
 end Ckks
